@@ -12,6 +12,9 @@ import Pymc.Model.Conn
 import Pymc.Model.Failover
 import Pymc.Model.PoolConc
 import Pymc.Model.Pooled
+import Pymc.Model.Serde
+import Pymc.Model.Aws
+import Pymc.Model.HashRoute
 /-! Line-protocol driver of the Lean models (one request per line, one reply line per request).
     Rejects what it cannot parse (`bad-op`), never defaults. -/
 open Bytes
@@ -496,6 +499,57 @@ def handlePooled (ws : List String) : Option String := do
   let free := ",".intercalate (st.free.map fun c => toString c.id ++ "/" ++ showO c.conn)
   pure s!"ok obs=[{obs}] free=[{free}] closed=[{",".intercalate (st.closed.map toString)}] out={st.used.length}"
 
+/-! ### C12: `batches seed=<n> nodes=<cps>;<cps> keys=<routing cps>~<key>|…` -/
+def handleBatches (ws : List String) : Option String := do
+  let seed ← (← arg ws "seed").toNat?
+  let ns ← arg ws "nodes"
+  let nodes ← if ns = "-" then some [] else (ns.splitOn ";").mapM natList
+  let names := nodes.map cpsToString
+  let kstr ← arg ws "keys"
+  let ks ← if kstr = "-" then some [] else (kstr.splitOn "|").mapM fun it =>
+    (match it.splitOn "~" with
+    | [r, k] => do pure (⟨cpsToString (← natList r), (← parseKey k)⟩ : HashRoute.HKey)
+    | _ => none)
+  let score : String → String → Nat := fun n r =>
+    Murmur.murmurPy ((n.toList.map Char.toNat) ++ [45] ++ (r.toList.map Char.toNat)) seed
+  let bs := HashRoute.batchesOf score names ks
+  pure ("ok " ++ ";".intercalate (bs.map fun (s, b) =>
+    ",".intercalate (s.toList.map (toString ∘ Char.toNat)) ++ ":" ++ "|".intercalate (b.map showKey)))
+
+/-! ### C15 -/
+def dummyCodec (plen zlen : Nat) : Serde.Codec :=
+  { utf8Enc := fun _ => List.replicate plen 0, utf8Dec := fun _ => none,
+    pickle := fun _ => List.replicate plen 0, unpickle := fun _ => none,
+    compress := fun _ => List.replicate zlen 0, decompress := fun _ => none }
+
+def handleSerde (ws : List String) : Option String := do
+  let kind ← arg ws "kind"
+  let v ← arg ws "val"
+  let pv : Serde.PyVal ← match kind with
+    | "b" => (Bytes.ofHex (v.drop 2).toString).map .bytes
+    | "i" => (v.drop 2).toString.toInt?.map .int
+    | "s" => some (.str [])
+    | "o" => some (.other 0)
+    | _ => none
+  let (p, flags) := Serde.serialize (dummyCodec 0 0) pv
+  let pk := match p with | .bytes _ => "bytes" | .text _ => "text"
+  let wire := if (kind = "b" || kind = "i") && (Serde.transmit p).length < 5000 then " wire=" ++ Bytes.toHex (Serde.transmit p) else ""
+  pure s!"ok flags={flags} payload={pk}{wire}"
+
+def handleCSerde (ws : List String) : Option String := do
+  let kind ← arg ws "kind"
+  let thr ← (← arg ws "thr").toNat?
+  let plen ← (← arg ws "plen").toNat?
+  let zlen ← (← arg ws "zlen").toNat?
+  let pv : Serde.PyVal ← match kind with
+    | "b" => some (.bytes (List.replicate plen 0))
+    | "i" => some (.int ((10 : Int) ^ (plen - 1)))
+    | "s" => some (.str [])
+    | "o" => some (.other 0)
+    | _ => none
+  let (_, flags) := Serde.cserialize (dummyCodec plen zlen) thr pv
+  pure s!"ok flags={flags} compressed={if flags &&& 8 ≠ 0 then 1 else 0}"
+
 def handle (ws : List String) : String :=
   let r : Option String :=
     match ws with
@@ -522,6 +576,9 @@ def handle (ws : List String) : String :=
     | "failover" :: rest => handleFailover rest
     | "pool" :: rest => handlePool rest
     | "pooled" :: rest => handlePooled rest
+    | "serde" :: rest => handleSerde rest
+    | "batches" :: rest => handleBatches rest
+    | "cserde" :: rest => handleCSerde rest
     | "pool.seq" :: rest => handlePoolSeq rest
     | "pool.validate" :: rest => handlePoolValidate rest
     | _ => none
